@@ -30,6 +30,12 @@ def run(ck):
         S.circuit(f"c{i}", body)
         S.cmd("compile", f"k{i}", "pp", "%02x" % (0x61 + i), f"c{i}")
         ids.append((S.cmd("prove", f"p{i}", f"k{i}", f"c{i}", 30 + i), S.cmd("prove", f"q{i}", f"k{i}", f"c{i}", 60 + i), S.cmd("verifierbytes", f"k{i}")))
+    corpus = json.load(open(os.path.join(VERIF, "corpus", "c03_v2.json")))
+    corp_ids = []
+    for j, c in enumerate(corpus):
+        S.circuit(f"cv{j}", c["body"])
+        S.cmd("compile", f"kv{j}", "pp", c["label_hex"], f"cv{j}")
+        corp_ids.append(S.cmd("verifierbytes", f"kv{j}"))
     res = protocol.run(S, "c03_a")
     mat = []
     for i, (p, q, vb) in enumerate(ids):
@@ -37,15 +43,24 @@ def run(ck):
         t = res[p].split(); t2 = res[q].split()
         pis = [int(x, 16) for x in t[2][3:].split(",")] if t[2][3:] else []
         mat.append({"proof": bytes.fromhex(t[1]), "proof2": bytes.fromhex(t2[1]), "pis": pis, "vbytes": res[vb].split()[1]})
+    for j, c in enumerate(corpus):
+        cs.append(c["body"])
+        mat.append({"proof": bytes.fromhex(c["proof_hex"]), "proof2": bytes.fromhex(c["proof_hex"]), "pis": [int(x, 16) for x in c["pis"]],
+                    "vbytes": res[corp_ids[j]].split()[1], "corpus": True, "kname": f"kv{j}"})
     # ---- phase 2: triples
     triples = []   # (id, key index, version, proof bytes, pis, description)
     def add(k, ver, pb, pis, desc):
         triples.append((f"t{len(triples)}", k, ver, pb, pis, desc)); ck.count((k, ver, pb, tuple(pis)), kind=desc.split(":")[0])
     for i, m in enumerate(mat):
+        if m.get("corpus"):
+            add(i, "V2", m["proof"], m["pis"], "stored genuine V2 proof (corpus/c03_v2.json, produced by the unchanged tree)")
+            add(i, "V3", m["proof"], m["pis"], "stored V2 proof under V3")
+            add(i, "V2", m["proof"], [(m["pis"][0] + 1) % R] + m["pis"][1:], "stored V2 proof, public input changed")
+            continue
         add(i, "V3", m["proof"], m["pis"], "honest")
         add(i, "V2", m["proof"], m["pis"], "honest proof under V2")
         for j, m2 in enumerate(mat):
-            if j != i: add(j, "V3", m["proof"], m2["pis"], "proof under the verifier of another circuit")
+            if j != i and not m2.get("corpus"): add(j, "V3", m["proof"], m2["pis"], "proof under the verifier of another circuit")
         if m["pis"]:
             add(i, "V3", m["proof"], [(m["pis"][0] + 1) % R] + m["pis"][1:], "public input changed")
             add(i, "V3", m["proof"], m["pis"][:-1], "public input vector truncated")
@@ -72,7 +87,7 @@ def run(ck):
     cmds = {}
     for tid, k, ver, b, pis, desc in triples:
         S2.cmd("proofbytes", tid, b.hex(), ",".join(hx(p) for p in pis) or "-")
-        cmds[tid] = S2.cmd("verify", f"k{k}", tid, ",".join(hx(p) for p in pis) or "-", ver)
+        cmds[tid] = S2.cmd("verify", mat[k].get("kname", f"k{k}"), tid, ",".join(hx(p) for p in pis) or "-", ver)
     res2 = protocol.run(S2, "c03_b", timeout=3000)
     # ---- reference verifier (extracted Gallina)
     ref = refver.run([(tid, ver, XSEC, mat[k]["vbytes"], b.hex(), pis) for tid, k, ver, b, pis, desc in triples], "c03_ref")
@@ -85,6 +100,9 @@ def run(ck):
             ck.violation(f"verifier panicked on: {desc}: {r[:120]}", {"failing_input_found": True, "proof_hex": b.hex(), "pis": [hx(p) for p in pis], "version": ver, "circuit": cs[k]}, key="panic"); continue
         real_ok = r.startswith("OK")
         rv, rch = ref.get(tid, ("?", []))
+        if desc.startswith("stored genuine V2 proof") and not real_ok:
+            ck.violation(f"a genuine V2 proof produced by the unchanged code is no longer accepted under PlonkVersion::V2: {r[:60]} (reference verifier: {rv})",
+                         {"failing_input_found": True, "proof_hex": b.hex(), "pis": [hx(p) for p in pis], "version": ver, "circuit": cs[k], "label_hex": "7632", "corpus": "corpus/c03_v2.json"}, key="stored-v2")
         n_acc += real_ok
         if real_ok != (rv == "ACCEPT"):
             dis.append((tid, desc, r[:60], rv, b, pis, ver, k))
@@ -107,7 +125,7 @@ def run(ck):
                      {"failing_input_found": bool(found), "correspondence": "transcript tie (challenges of Proof::verify vs Protocol/RefVerifier.v)", "challenge": first, "proof_hex": (found or b).hex(), "pis": [hx(p) for p in pis], "circuit": cs[k]},
                      key="transcript:" + first)
     return ck.finish(level="proof",
-        rule="(verifier, proof, public inputs, version) triples: honest proofs of all circuits, honest proofs under V2, under verifiers of other circuits, with changed/truncated/reversed public inputs; single-bit flips of the 1008 proof bytes (quick: 700 sampled, thorough: all 8064); every commitment and evaluation replaced by another valid element (other proof's, neighbour, identity/generator, zero/one); degenerate proof. Real Verifier::verify_with_version vs the extracted Gallina reference verifier (own Keccak/STROBE/Merlin, own BLS12-381 G1, exponent-level pairing check with the scripted SRS secret); derived challenges compared one by one",
+        rule="(verifier, proof, public inputs, version) triples: honest proofs of all circuits, stored genuine V2 proofs (corpus) under V2 / V3 / changed PI, honest V3 proofs under V2, under verifiers of other circuits, with changed/truncated/reversed public inputs; single-bit flips of the 1008 proof bytes (quick: 700 sampled, thorough: all 8064); every commitment and evaluation replaced by another valid element (other proof's, neighbour, identity/generator, zero/one); degenerate proof. Real Verifier::verify_with_version vs the extracted Gallina reference verifier (own Keccak/STROBE/Merlin, own BLS12-381 G1, exponent-level pairing check with the scripted SRS secret); derived challenges compared one by one",
         assumptions=["Keccak-f modelled as a function (no collision/randomness claim)", "pairing bilinear and non-degenerate: e(A, x h) e(B, h) = 1 <=> x A + B = O", "Protocol/G1.v is an unverified executable reference: a bug there shows as a disagreement on the unchanged tree",
                      "V1 (legacy) equation is not modelled"],
         checker_cmd=proofgate.CHECKER_CMD, trusted_base=proofgate.TRUSTED)
